@@ -14,8 +14,13 @@ func (ex *Exec) divModPos(a Term, m *big.Int) (Term, Term) {
 		q, r := new(big.Int).DivMod(a.I, m, new(big.Int))
 		return IntB(q), IntB(r)
 	}
+	key := a.S + "|" + m.String()
+	if qr, ok := ex.divMemo[key]; ok {
+		return qr[0], qr[1]
+	}
 	q, r := ex.aux("q"), ex.aux("r")
 	ex.assume(And(Eq(a, Add(Mul(q, IntB(m)), r)), And(Ge(r, IntC(0)), Lt(r, IntB(m)))))
+	ex.divMemo[key] = [2]Term{q, r}
 	return q, r
 }
 
@@ -384,6 +389,21 @@ func init() {
 				return r
 			}
 			panic(unsupported{"big.Int.Mod by symbolic"})
+		})
+		m[bp+"Lsh"] = setter(func(ex *Exec, a []Value) Term {
+			n := ti(a[2])
+			if !n.Const {
+				panic(unsupported{"big.Int.Lsh by symbolic"})
+			}
+			return Mul(bigVal(a[1]), IntB(pow2(uint(n.I.Int64()))))
+		})
+		m[bp+"Rsh"] = setter(func(ex *Exec, a []Value) Term {
+			n := ti(a[2])
+			if !n.Const {
+				panic(unsupported{"big.Int.Rsh by symbolic"})
+			}
+			q, _ := ex.divModPos(bigVal(a[1]), pow2(uint(n.I.Int64())))
+			return q
 		})
 		m[bp+"Exp"] = setter(func(ex *Exec, a []Value) Term {
 			x, y := bigVal(a[1]), bigVal(a[2])
